@@ -380,3 +380,55 @@ Proof.
   induction n as [|n IH]; intros v Hb; cbn [bytes_of_le8] in Hb; [destruct Hb|].
   destruct Hb as [<-|Hb]; [apply N.mod_lt; lia|eapply IH; exact Hb].
 Qed.
+
+Section AF2.
+Variable F : list N -> list N.
+(* fewer distinct points than the first share's threshold: refused, whatever else is in the list *)
+Theorem arecover_too_few (s : ashare) rest :
+  (N.of_nat (length (dedup [] (map aS (s :: rest)))) < aA s)%N -> arecover F (s :: rest) = Err.
+Proof. intros H. rewrite arecover_unfold, (recover_too_few _ _ H). reflexivity. Qed.
+
+(* fields of non-first shares other than the Shamir point are ignored *)
+Theorem arecover_nonfirst_ignored (s : ashare) rest rest' :
+  map aS rest = map aS rest' -> arecover F (s :: rest) = arecover F (s :: rest').
+Proof. intros H. rewrite !arecover_unfold. cbn [map]. rewrite H. reflexivity. Qed.
+
+(* an altered authentication tag on the supplying share is always rejected (no collision caveat) *)
+Theorem arecover_tamper_J (s : ashare) rest c' (J' : bytes) :
+  arecover F (s :: rest) = Ok c' -> length J' = Params.mac_length -> J' <> aJ s -> length (aJ s) = Params.mac_length ->
+  arecover F ({| aA := aA s; aS := aS s; aC := aC s; aD := aD s; aJ := J' |} :: rest) = Err.
+Proof.
+  intros Hr HL Hne HLs.
+  destruct (arecover_ok_inv F _ _ _ Hr) as (HT' & HA & Hv & keyb & Hk & Hlen & HM & HR). cbv zeta in HM, HR.
+  rewrite arecover_unfold. cbn [aA aS aC aD aJ map]. cbn [map] in Hk. rewrite Hk. cbn [obind].
+  replace (length keyb <? Params.adss_key_take)%nat with false by (symmetry; apply Nat.ltb_ge; exact Hlen).
+  rewrite slice_to_ok by exact Hlen. cbn [obind]. cbv zeta.
+  destruct (recv_enc F (key F (new F Params.lbl_adss_encrypt) (firstn Params.adss_key_take keyb)) (aC s)) as [ks1 M] eqn:E1.
+  cbn [fst snd] in HM, HR.
+  destruct (recv_enc F ks1 (aD s)) as [ks2 R] eqn:E2. cbn [fst snd] in HM, HR.
+  assert (Hc : {| cA := aA s; cM := M; cR := R; cT := None |} = c').
+  { clear - HT' HA HM HR. destruct c' as [a m r t0]. cbn [cT cA cM cR] in HT', HA, HM, HR. subst. reflexivity. }
+  rewrite Hc.
+  pose proof (verify_true_J F c' (aJ s) HT' HLs Hv) as HJ.
+  unfold verify. rewrite (recv_mac_reject F (transcript_of F c') (transcript_of F c') Params.mac_length J');
+    [reflexivity|apply in_step_same, transcript_recv; exact HT'|exact HL|rewrite <- HJ; exact Hne].
+Qed.
+
+(* the first share is an honest share of c with its threshold field rewritten to t' *)
+Theorem forged_threshold (c : commune) (x : fp) (polys : list (list fp)) (t' : N) (rest : list ashare) (c' : commune) :
+  polys_from F (cA c) (sharing_of F c) = Ok (Some polys) ->
+  arecover F ({| aA := t'; aS := evaluate polys x; aC := hC (sharing_of F c); aD := hD (sharing_of F c);
+                 aJ := hJ (sharing_of F c) |} :: rest) = Ok c' ->
+  cA c' = t' /\ (t' <> cA c -> MacCoincidence F c c').
+Proof.
+  intros Hp Hr.
+  destruct (sharing_of_fields F c) as (HJ & _). cbv zeta in HJ.
+  assert (HJl : length (hJ (sharing_of F c)) = Params.mac_length) by (rewrite HJ; apply length_send_mac).
+  revert Hr HJ HJl. generalize (sharing_of F c). intros h Hr HJ HJl.
+  destruct (arecover_ok_inv F _ _ _ Hr) as (HT' & HA & _).
+  split; [exact HA|].
+  intros Hne. unfold MacCoincidence. split.
+  - unfold commune_key. intro E. apply Hne. assert (E2 : cA c = cA c') by congruence. rewrite E2. symmetry. exact HA.
+  - destruct (mac_of_verified F c' (hJ h) {| aA := t'; aS := evaluate polys x; aC := hC h; aD := hD h; aJ := hJ h |} rest eq_refl HJl Hr) as [_ HJ']. rewrite <- HJ. exact HJ'.
+Qed.
+End AF2.
